@@ -206,8 +206,10 @@ class FillMonitor(Monitor):
     def on_exec_before(self, pkg):
         self.created = []
         self.pre = {o._vid: len(o.simulated.matched) for o in pkg._orders}
-        self.book = self.run.held_state(pkg.market_id)
-        self.book_index = self.run.held.get(pkg.market_id)
+        # the book that prevailed immediately before the update being processed: the last update that
+        # was fully processed for this market (NOT "whatever flumine holds now" - that would hide a look-ahead)
+        self.book_index = self.run.last_delivered.get(pkg.market_id)
+        self.book = self.run.state(pkg.market_id, self.book_index) if self.book_index is not None else None
 
     def on_exec_after(self, pkg):
         kind = pkg.package_type.name
